@@ -270,3 +270,114 @@ package rsl
 //@     invariant checked: forall i :: 0 <= i && i <= rangeindex ==> pOK(cmsg(a.RSLEntryIDs[i]))
 //@     invariant untouched: storeUnchanged() && a.Number == old(a.Number) && a.RSLEntryIDs == old(a.RSLEntryIDs) && a.Skip == old(a.Skip)
 //@     invariant noFaultYet: faults == old(faults)
+
+//@ # ---- C14: the parsers as state machines over the lines of the text ----
+//@ # line j of the body (after the header line and the blank line)
+//@ define bodyLine(text string, j int) string = splitAt(text, "\n", j + 2)
+//@ define bodyLen(text string) int = splitN(text, "\n") - 2
+//@ define keyOf(l string) string = strings.TrimSpace(cutBefore(strings.TrimSpace(l), ":"))
+//@ define valOf(l string) string = strings.TrimSpace(cutAfter(strings.TrimSpace(l), ":"))
+//@ define hasSep(l string) bool = cutFound(strings.TrimSpace(l), ":")
+//@ define hashParsed(h Hash, v string) bool = (len(v) == 40 || len(v) == 64) && validHex(v) && h == unhex(v)
+//@ define numParsed(n uint64, v string) bool = parseUintOK(v) && n == parseUint(v)
+
+//@ func [C14] entryBody -> (body, err)
+//@   assigns fresh(elems string)
+//@   ensures shape: err == nil ==> splitN(text, "\n") >= 2 && splitAt(text, "\n", 0) == header && strings.TrimSpace(splitAt(text, "\n", 1)) == "" && len(body) == bodyLen(text)
+//@   ensures lines: err == nil ==> forall j :: 0 <= j && j < len(body) ==> body[j] == bodyLine(text, j)
+//@   ensures reject: err != nil ==> err == ErrInvalidRSLEntry && body == nil
+//@   ensures rejectIff: err != nil <==> (splitN(text, "\n") < 2 || splitAt(text, "\n", 0) != header || strings.TrimSpace(splitAt(text, "\n", 1)) != "")
+
+//@ func [C14] parseReferenceEntryText -> (e, err)
+//@   assigns fresh(ReferenceEntry.*), fresh(elems string)
+//@   ensures noPartial: err != nil ==> e == nil
+//@   ensures shape: err == nil ==> e != nil && e.ID == id && splitN(text, "\n") >= 2 && splitAt(text, "\n", 0) == ReferenceEntryHeader
+//@   ensures everyLineHasSeparator: err == nil ==> forall j :: 0 <= j && j < bodyLen(text) ==> hasSep(bodyLine(text, j))
+//@   ensures refField: err == nil ==> 0 <= ga && ga < bodyLen(text) && keyOf(bodyLine(text, ga)) == RefKey && e.RefName == valOf(bodyLine(text, ga))
+//@   ensures refOnce: err == nil ==> forall j :: 0 <= j && j < bodyLen(text) && j != ga ==> keyOf(bodyLine(text, j)) != RefKey
+//@   ensures targetField: err == nil ==> ga < gb && gb < bodyLen(text) && keyOf(bodyLine(text, gb)) == TargetIDKey && hashParsed(e.TargetID, valOf(bodyLine(text, gb)))
+//@   ensures targetOnce: err == nil ==> forall j :: 0 <= j && j < bodyLen(text) && j != gb ==> keyOf(bodyLine(text, j)) != TargetIDKey
+//@   ensures numberField: err == nil ==> (gc == -1 && e.Number == 0) || (gb < gc && gc < bodyLen(text) && keyOf(bodyLine(text, gc)) == NumberKey && numParsed(e.Number, valOf(bodyLine(text, gc))))
+//@   ensures numberOnce: err == nil ==> forall j :: 0 <= j && j < bodyLen(text) && j != gc ==> keyOf(bodyLine(text, j)) != NumberKey
+//@   loop 1:
+//@     ghost ga = -1 step ite(keyOf(body[rangeindex+1]) == RefKey, rangeindex + 1, ga)
+//@     ghost gb = -1 step ite(keyOf(body[rangeindex+1]) == TargetIDKey, rangeindex + 1, gb)
+//@     ghost gc = -1 step ite(keyOf(body[rangeindex+1]) == NumberKey, rangeindex + 1, gc)
+//@     invariant bounds: rangeindex < len(body) && 0 <= state && state <= 3 && len(body) == bodyLen(text)
+//@     invariant linesAre: forall j :: 0 <= j && j < len(body) ==> body[j] == bodyLine(text, j)
+//@     invariant seps: forall j :: 0 <= j && j <= rangeindex ==> hasSep(body[j])
+//@     invariant s0: state == 0 ==> ga == -1 && gb == -1 && gc == -1
+//@     invariant noRefYet: state == 0 ==> forall j :: 0 <= j && j <= rangeindex ==> keyOf(body[j]) != RefKey
+//@     invariant noTargetYet: state <= 1 ==> gb == -1 && forall j :: 0 <= j && j <= rangeindex ==> keyOf(body[j]) != TargetIDKey
+//@     invariant noNumberYet: state <= 2 ==> gc == -1 && entry.Number == 0 && forall j :: 0 <= j && j <= rangeindex ==> keyOf(body[j]) != NumberKey
+//@     invariant haveRef: state >= 1 ==> 0 <= ga && ga <= rangeindex && keyOf(body[ga]) == RefKey && entry.RefName == valOf(body[ga]) && forall j :: 0 <= j && j <= rangeindex && j != ga ==> keyOf(body[j]) != RefKey
+//@     invariant haveTarget: state >= 2 ==> ga < gb && gb <= rangeindex && keyOf(body[gb]) == TargetIDKey && hashParsed(entry.TargetID, valOf(body[gb])) && forall j :: 0 <= j && j <= rangeindex && j != gb ==> keyOf(body[j]) != TargetIDKey
+//@     invariant haveNumber: state == 3 ==> gb < gc && gc <= rangeindex && keyOf(body[gc]) == NumberKey && numParsed(entry.Number, valOf(body[gc])) && forall j :: 0 <= j && j <= rangeindex && j != gc ==> keyOf(body[j]) != NumberKey
+//@     invariant entryID: entry != nil && entry.ID == id
+
+//@ func [C14] parsePropagationEntryText -> (e, err)
+//@   assigns fresh(PropagationEntry.*), fresh(elems string)
+//@   ensures noPartial: err != nil ==> e == nil
+//@   ensures shape: err == nil ==> e != nil && e.ID == id && splitN(text, "\n") >= 2 && splitAt(text, "\n", 0) == PropagationEntryHeader
+//@   ensures everyLineHasSeparator: err == nil ==> forall j :: 0 <= j && j < bodyLen(text) ==> hasSep(bodyLine(text, j))
+//@   ensures refField: err == nil ==> 0 <= ga && ga < bodyLen(text) && keyOf(bodyLine(text, ga)) == RefKey && e.RefName == valOf(bodyLine(text, ga))
+//@   ensures refOnce: err == nil ==> forall j :: 0 <= j && j < bodyLen(text) && j != ga ==> keyOf(bodyLine(text, j)) != RefKey
+//@   ensures targetField: err == nil ==> ga < gb && gb < bodyLen(text) && keyOf(bodyLine(text, gb)) == TargetIDKey && hashParsed(e.TargetID, valOf(bodyLine(text, gb)))
+//@   ensures targetOnce: err == nil ==> forall j :: 0 <= j && j < bodyLen(text) && j != gb ==> keyOf(bodyLine(text, j)) != TargetIDKey
+//@   ensures upRepoField: err == nil ==> gb < gu && gu < bodyLen(text) && keyOf(bodyLine(text, gu)) == UpstreamRepositoryKey && e.UpstreamRepository == valOf(bodyLine(text, gu))
+//@   ensures upRepoOnce: err == nil ==> forall j :: 0 <= j && j < bodyLen(text) && j != gu ==> keyOf(bodyLine(text, j)) != UpstreamRepositoryKey
+//@   ensures upEntryField: err == nil ==> gu < gv && gv < bodyLen(text) && keyOf(bodyLine(text, gv)) == UpstreamEntryIDKey && hashParsed(e.UpstreamEntryID, valOf(bodyLine(text, gv)))
+//@   ensures upEntryOnce: err == nil ==> forall j :: 0 <= j && j < bodyLen(text) && j != gv ==> keyOf(bodyLine(text, j)) != UpstreamEntryIDKey
+//@   ensures numberField: err == nil ==> (gc == -1 && e.Number == 0) || (gv < gc && gc < bodyLen(text) && keyOf(bodyLine(text, gc)) == NumberKey && numParsed(e.Number, valOf(bodyLine(text, gc))))
+//@   ensures numberOnce: err == nil ==> forall j :: 0 <= j && j < bodyLen(text) && j != gc ==> keyOf(bodyLine(text, j)) != NumberKey
+//@   loop 1:
+//@     ghost ga = -1 step ite(keyOf(body[rangeindex+1]) == RefKey, rangeindex + 1, ga)
+//@     ghost gb = -1 step ite(keyOf(body[rangeindex+1]) == TargetIDKey, rangeindex + 1, gb)
+//@     ghost gu = -1 step ite(keyOf(body[rangeindex+1]) == UpstreamRepositoryKey, rangeindex + 1, gu)
+//@     ghost gv = -1 step ite(keyOf(body[rangeindex+1]) == UpstreamEntryIDKey, rangeindex + 1, gv)
+//@     ghost gc = -1 step ite(keyOf(body[rangeindex+1]) == NumberKey, rangeindex + 1, gc)
+//@     invariant bounds: rangeindex < len(body) && 0 <= state && state <= 5 && len(body) == bodyLen(text)
+//@     invariant linesAre: forall j :: 0 <= j && j < len(body) ==> body[j] == bodyLine(text, j)
+//@     invariant seps: forall j :: 0 <= j && j <= rangeindex ==> hasSep(body[j])
+//@     invariant noRefYet: state == 0 ==> ga == -1 && forall j :: 0 <= j && j <= rangeindex ==> keyOf(body[j]) != RefKey
+//@     invariant noTargetYet: state <= 1 ==> gb == -1 && forall j :: 0 <= j && j <= rangeindex ==> keyOf(body[j]) != TargetIDKey
+//@     invariant noUpRepoYet: state <= 2 ==> gu == -1 && forall j :: 0 <= j && j <= rangeindex ==> keyOf(body[j]) != UpstreamRepositoryKey
+//@     invariant noUpEntryYet: state <= 3 ==> gv == -1 && forall j :: 0 <= j && j <= rangeindex ==> keyOf(body[j]) != UpstreamEntryIDKey
+//@     invariant noNumberYet: state <= 4 ==> gc == -1 && entry.Number == 0 && forall j :: 0 <= j && j <= rangeindex ==> keyOf(body[j]) != NumberKey
+//@     invariant haveRef: state >= 1 ==> 0 <= ga && ga <= rangeindex && keyOf(body[ga]) == RefKey && entry.RefName == valOf(body[ga]) && forall j :: 0 <= j && j <= rangeindex && j != ga ==> keyOf(body[j]) != RefKey
+//@     invariant haveTarget: state >= 2 ==> ga < gb && gb <= rangeindex && keyOf(body[gb]) == TargetIDKey && hashParsed(entry.TargetID, valOf(body[gb])) && forall j :: 0 <= j && j <= rangeindex && j != gb ==> keyOf(body[j]) != TargetIDKey
+//@     invariant haveUpRepo: state >= 3 ==> gb < gu && gu <= rangeindex && keyOf(body[gu]) == UpstreamRepositoryKey && entry.UpstreamRepository == valOf(body[gu]) && forall j :: 0 <= j && j <= rangeindex && j != gu ==> keyOf(body[j]) != UpstreamRepositoryKey
+//@     invariant haveUpEntry: state >= 4 ==> gu < gv && gv <= rangeindex && keyOf(body[gv]) == UpstreamEntryIDKey && hashParsed(entry.UpstreamEntryID, valOf(body[gv])) && forall j :: 0 <= j && j <= rangeindex && j != gv ==> keyOf(body[j]) != UpstreamEntryIDKey
+//@     invariant haveNumber: state == 5 ==> gv < gc && gc <= rangeindex && keyOf(body[gc]) == NumberKey && numParsed(entry.Number, valOf(body[gc])) && forall j :: 0 <= j && j <= rangeindex && j != gc ==> keyOf(body[j]) != NumberKey
+//@     invariant entryID: entry != nil && entry.ID == id
+
+//@ # annotation: lines are examined up to (excluding) the first line that is the message marker
+//@ define isMarker(l string) bool = strings.TrimSpace(l) == BeginMessage
+//@ func [C14] parseAnnotationEntryText -> (e, err)
+//@   assigns fresh(AnnotationEntry.*), fresh(elems string), fresh(elems Hash)
+//@   ensures noPartial: err != nil ==> e == nil
+//@   ensures shape: err == nil ==> e != nil && e.ID == id && splitN(text, "\n") >= 2 && splitAt(text, "\n", 0) == AnnotationEntryHeader
+//@   ensures scanned: err == nil ==> -1 <= rangeindex && rangeindex < bodyLen(text) && (rangeindex + 1 == bodyLen(text) || isMarker(bodyLine(text, rangeindex + 1))) && forall j :: 0 <= j && j <= rangeindex ==> !isMarker(bodyLine(text, j)) && hasSep(bodyLine(text, j))
+//@   ensures skipField: err == nil ==> 0 <= gs && gs <= rangeindex && keyOf(bodyLine(text, gs)) == SkipKey && ((e.Skip && valOf(bodyLine(text, gs)) == "true") || (!e.Skip && valOf(bodyLine(text, gs)) == "false"))
+//@   ensures skipOnce: err == nil ==> forall j :: 0 <= j && j <= rangeindex && j != gs ==> keyOf(bodyLine(text, j)) != SkipKey
+//@   ensures idsNonEmpty: err == nil ==> len(e.RSLEntryIDs) >= 1
+//@   ensures idsFromLines: err == nil ==> forall i :: 0 <= i && i < len(e.RSLEntryIDs) ==> (exists j :: 0 <= j && j < gs && keyOf(bodyLine(text, j)) == EntryIDKey && hashParsed(e.RSLEntryIDs[i], valOf(bodyLine(text, j))))
+//@   ensures linesInIDs: err == nil ==> forall j :: 0 <= j && j <= rangeindex && keyOf(bodyLine(text, j)) == EntryIDKey ==> j < gs && 0 <= gw[j] && gw[j] < len(e.RSLEntryIDs) && hashParsed(e.RSLEntryIDs[gw[j]], valOf(bodyLine(text, j)))
+//@   ensures numberField: err == nil ==> (gc == -1 && e.Number == 0) || (gs < gc && gc <= rangeindex && keyOf(bodyLine(text, gc)) == NumberKey && numParsed(e.Number, valOf(bodyLine(text, gc))))
+//@   ensures numberOnce: err == nil ==> forall j :: 0 <= j && j <= rangeindex && j != gc ==> keyOf(bodyLine(text, j)) != NumberKey
+//@   loop 1:
+//@     ghost gs = -1 step ite(keyOf(body[rangeindex+1]) == SkipKey, rangeindex + 1, gs)
+//@     ghost gc = -1 step ite(keyOf(body[rangeindex+1]) == NumberKey, rangeindex + 1, gc)
+//@     # gw[j]: position in RSLEntryIDs of the hash recorded for entryID line j
+//@     ghost gw smt:(Array Int Int) = any step ite(keyOf(body[rangeindex+1]) == EntryIDKey, upd(gw, rangeindex + 1, len(annotation.RSLEntryIDs) - 1), gw)
+//@     invariant bounds: rangeindex < len(body) && 0 <= state && state <= 2 && len(body) == bodyLen(text)
+//@     invariant linesAre: forall j :: 0 <= j && j < len(body) ==> body[j] == bodyLine(text, j)
+//@     invariant seps: forall j :: 0 <= j && j <= rangeindex ==> hasSep(body[j]) && !isMarker(body[j])
+//@     invariant noSkipYet: state == 0 ==> gs == -1 && forall j :: 0 <= j && j <= rangeindex ==> keyOf(body[j]) != SkipKey
+//@     invariant noNumberYet: state <= 1 ==> gc == -1 && annotation.Number == 0 && forall j :: 0 <= j && j <= rangeindex ==> keyOf(body[j]) != NumberKey
+//@     invariant haveSkip: state >= 1 ==> 0 <= gs && gs <= rangeindex && keyOf(body[gs]) == SkipKey && ((annotation.Skip && valOf(body[gs]) == "true") || (!annotation.Skip && valOf(body[gs]) == "false")) && len(annotation.RSLEntryIDs) >= 1 && forall j :: 0 <= j && j <= rangeindex && j != gs ==> keyOf(body[j]) != SkipKey
+//@     invariant idsBeforeSkip: state >= 1 ==> forall j :: 0 <= j && j <= rangeindex && keyOf(body[j]) == EntryIDKey ==> j < gs
+//@     invariant idsFromLines: forall i :: 0 <= i && i < len(annotation.RSLEntryIDs) ==> (exists j :: 0 <= j && j <= rangeindex && (state == 0 || j < gs) && keyOf(body[j]) == EntryIDKey && hashParsed(annotation.RSLEntryIDs[i], valOf(body[j])))
+//@     invariant linesInIDs: forall j :: 0 <= j && j <= rangeindex && keyOf(body[j]) == EntryIDKey ==> 0 <= gw[j] && gw[j] < len(annotation.RSLEntryIDs) && hashParsed(annotation.RSLEntryIDs[gw[j]], valOf(body[j]))
+//@     invariant haveNumber: state == 2 ==> gs < gc && gc <= rangeindex && keyOf(body[gc]) == NumberKey && numParsed(annotation.Number, valOf(body[gc])) && forall j :: 0 <= j && j <= rangeindex && j != gc ==> keyOf(body[j]) != NumberKey
+//@     invariant entryID: annotation != nil && annotation.ID == id
